@@ -305,6 +305,14 @@ func specCocCandOptMax(ten bool, u IntType) IntType {
 	return -1000
 }
 
+// specMax0(x): x when positive, else 0
+func specMax0(x int) int {
+	if x > 0 {
+		return x
+	}
+	return 0
+}
+
 func specMin(a, b IntType) IntType {
 	if a < b {
 		return a
@@ -603,6 +611,101 @@ func (*ParserData).WriteCode
   ensures [C07 C08] e.codeIndex == old(e.codeIndex) + 1 || e.codeOverflow
   ensures [C07] old(e.codeOverflow) ==> e.codeOverflow
   ensures forall k in [0, old(e.codeIndex)): e.code[k] == old(e.code[k])
+
+func (*ParserData).AddOp
+  props C08 C02 C01
+  requires e != nil && 0 <= e.codeIndex && e.codeIndex <= len(e.code) && len(e.code) >= 1
+  requires -(1<<40) < e.blockDepth && e.blockDepth < 1<<40 && -(1<<40) < e.fstrDepth && e.fstrDepth < 1<<40
+  ensures e.codeIndex <= len(e.code) && len(e.code) >= 1
+  ensures [C08] operator == typeBlockPush ==> e.blockDepth == old(e.blockDepth) + 1
+  ensures [C08] operator == typeBlockPop ==> e.blockDepth == old(e.blockDepth) - 1
+  ensures [C08] operator != typeBlockPush && operator != typeBlockPop ==> e.blockDepth == old(e.blockDepth)
+  ensures [C08] operator == typeFStringBlockPush ==> e.fstrDepth == old(e.fstrDepth) + 1
+  ensures [C08] operator == typeFStringBlockPop ==> e.fstrDepth == old(e.fstrDepth) - 1
+  ensures [C08] operator != typeFStringBlockPush && operator != typeFStringBlockPop ==> e.fstrDepth == old(e.fstrDepth)
+  ensures [C08] e.codeIndex == old(e.codeIndex) + 1 ==> e.code[old(e.codeIndex)].T == operator
+  ensures [C08] e.codeIndex == old(e.codeIndex) + 1 || e.codeOverflow
+  ensures [C07] old(e.codeOverflow) ==> e.codeOverflow
+  ensures forall k in [0, old(e.codeIndex)): e.code[k] == old(e.code[k])
+
+// unwindToLoop closes exactly the blocks and templates opened since the innermost LoopBegin: that many block.pop,
+// then that many fstr.block.pop instructions, and leaves the syntactic depth counters alone (C08, C02).
+func (*ParserData).unwindToLoop
+  props C08 C02 C01
+  requires p != nil && len(p.loopInfo) >= 1 && 0 <= p.codeIndex && p.codeIndex <= len(p.code) && len(p.code) >= 1
+  requires -(1<<40) < p.blockDepth && p.blockDepth < 1<<40 && -(1<<40) < p.fstrDepth && p.fstrDepth < 1<<40
+  requires -(1<<40) < p.loopInfo[len(p.loopInfo)-1].blockDepth && p.loopInfo[len(p.loopInfo)-1].blockDepth < 1<<40 && -(1<<40) < p.loopInfo[len(p.loopInfo)-1].fstrDepth && p.loopInfo[len(p.loopInfo)-1].fstrDepth < 1<<40
+  ensures [C08] p.blockDepth == old(p.blockDepth) && p.fstrDepth == old(p.fstrDepth) && len(p.loopInfo) == old(len(p.loopInfo))
+  ensures p.codeIndex <= len(p.code) && len(p.code) >= 1 && p.codeIndex >= old(p.codeIndex)
+  ensures [C08] !p.codeOverflow ==> p.codeIndex == old(p.codeIndex) + specMax0(old(p.blockDepth)-old(p.loopInfo[len(p.loopInfo)-1].blockDepth)) + specMax0(old(p.fstrDepth)-old(p.loopInfo[len(p.loopInfo)-1].fstrDepth))
+  ensures [C08] !p.codeOverflow ==> forall k in [old(p.codeIndex), old(p.codeIndex) + specMax0(old(p.blockDepth)-old(p.loopInfo[len(p.loopInfo)-1].blockDepth))): p.code[k].T == typeBlockPop
+  ensures [C08] !p.codeOverflow ==> forall k in [old(p.codeIndex) + specMax0(old(p.blockDepth)-old(p.loopInfo[len(p.loopInfo)-1].blockDepth)), p.codeIndex): p.code[k].T == typeFStringBlockPop
+  ensures [C07] old(p.codeOverflow) ==> p.codeOverflow
+  ghost var g0 int = 0
+  ghost at entry: g0 = p.codeIndex
+  loop 1
+    invariant p != nil && len(p.loopInfo) == atLoopEntry(len(p.loopInfo)) && p.blockDepth == atLoopEntry(p.blockDepth) && p.fstrDepth == atLoopEntry(p.fstrDepth)
+    invariant 0 <= p.codeIndex && p.codeIndex <= len(p.code) && len(p.code) >= 1 && (atLoopEntry(p.codeOverflow) ==> p.codeOverflow) && p.codeIndex >= atLoopEntry(p.codeIndex) && g0 == atLoopEntry(p.codeIndex)
+    invariant i <= p.blockDepth && (p.blockDepth > info.blockDepth ==> i >= info.blockDepth) && (p.blockDepth <= info.blockDepth ==> i == p.blockDepth)
+    invariant !p.codeOverflow ==> p.codeIndex == atLoopEntry(p.codeIndex) + (p.blockDepth - i)
+    invariant !p.codeOverflow ==> forall k in [atLoopEntry(p.codeIndex), p.codeIndex): p.code[k].T == typeBlockPop
+    decreases i - info.blockDepth
+  loop 2
+    invariant p != nil && len(p.loopInfo) == atLoopEntry(len(p.loopInfo)) && p.blockDepth == atLoopEntry(p.blockDepth) && p.fstrDepth == atLoopEntry(p.fstrDepth)
+    invariant 0 <= p.codeIndex && p.codeIndex <= len(p.code) && len(p.code) >= 1 && (atLoopEntry(p.codeOverflow) ==> p.codeOverflow) && p.codeIndex >= atLoopEntry(p.codeIndex) && g0 <= atLoopEntry(p.codeIndex)
+    invariant i <= p.fstrDepth && (p.fstrDepth > info.fstrDepth ==> i >= info.fstrDepth) && (p.fstrDepth <= info.fstrDepth ==> i == p.fstrDepth)
+    invariant !p.codeOverflow ==> p.codeIndex == atLoopEntry(p.codeIndex) + (p.fstrDepth - i)
+    invariant !p.codeOverflow ==> forall k in [atLoopEntry(p.codeIndex), p.codeIndex): p.code[k].T == typeFStringBlockPop
+    invariant !p.codeOverflow ==> forall k in [g0, atLoopEntry(p.codeIndex)): p.code[k].T == typeBlockPop
+    invariant !p.codeOverflow ==> atLoopEntry(p.codeIndex) == g0 + specMax0(p.blockDepth - info.blockDepth)
+    decreases i - info.fstrDepth
+
+func (*ParserData).LoopBegin
+  props C02 C08 C01
+  requires e != nil && e.loopLayer < 1<<40
+  ensures [C08] len(e.loopInfo) == old(len(e.loopInfo)) + 1 && e.loopLayer == old(e.loopLayer) + 1
+  ensures [C08] e.loopInfo[len(e.loopInfo)-1].continueIndex == len(e.continueStack) && e.loopInfo[len(e.loopInfo)-1].breakIndex == len(e.breakStack)
+  ensures [C08] e.loopInfo[len(e.loopInfo)-1].blockDepth == e.blockDepth && e.loopInfo[len(e.loopInfo)-1].fstrDepth == e.fstrDepth
+  ensures e.blockDepth == old(e.blockDepth) && e.fstrDepth == old(e.fstrDepth)
+
+func (*ParserData).BreakPush
+  props C02 C08 C01
+  requires p != nil && 0 <= p.codeIndex && p.codeIndex <= len(p.code) && len(p.code) >= 1
+  requires p.loopLayer > 0 ==> len(p.loopInfo) >= 1
+  requires -(1<<40) < p.blockDepth && p.blockDepth < 1<<40 && -(1<<40) < p.fstrDepth && p.fstrDepth < 1<<40
+  requires p.loopLayer > 0 ==> -(1<<40) < p.loopInfo[len(p.loopInfo)-1].blockDepth && p.loopInfo[len(p.loopInfo)-1].blockDepth < 1<<40 && -(1<<40) < p.loopInfo[len(p.loopInfo)-1].fstrDepth && p.loopInfo[len(p.loopInfo)-1].fstrDepth < 1<<40
+  ensures [C08] old(p.loopLayer) <= 0 ==> result != nil && p.codeIndex == old(p.codeIndex) && len(p.breakStack) == old(len(p.breakStack))
+  ensures [C08] old(p.loopLayer) > 0 ==> result == nil
+  ensures [C08] old(p.loopLayer) > 0 ==> len(p.breakStack) == old(len(p.breakStack)) + 1
+  ensures [C08] old(p.loopLayer) > 0 && !p.codeOverflow ==> p.code[p.codeIndex-1].T == typeJmp && p.codeIndex == old(p.codeIndex) + specMax0(old(p.blockDepth)-old(p.loopInfo[len(p.loopInfo)-1].blockDepth)) + specMax0(old(p.fstrDepth)-old(p.loopInfo[len(p.loopInfo)-1].fstrDepth)) + 1
+  ensures [C08] p.blockDepth == old(p.blockDepth) && p.fstrDepth == old(p.fstrDepth)
+
+func (*ParserData).ContinuePush
+  props C02 C08 C01
+  requires p != nil && 0 <= p.codeIndex && p.codeIndex <= len(p.code) && len(p.code) >= 1
+  requires p.loopLayer > 0 ==> len(p.loopInfo) >= 1
+  requires -(1<<40) < p.blockDepth && p.blockDepth < 1<<40 && -(1<<40) < p.fstrDepth && p.fstrDepth < 1<<40
+  requires p.loopLayer > 0 ==> -(1<<40) < p.loopInfo[len(p.loopInfo)-1].blockDepth && p.loopInfo[len(p.loopInfo)-1].blockDepth < 1<<40 && -(1<<40) < p.loopInfo[len(p.loopInfo)-1].fstrDepth && p.loopInfo[len(p.loopInfo)-1].fstrDepth < 1<<40
+  ensures [C08] old(p.loopLayer) <= 0 ==> result != nil && p.codeIndex == old(p.codeIndex) && len(p.continueStack) == old(len(p.continueStack))
+  ensures [C08] old(p.loopLayer) > 0 ==> result == nil && len(p.continueStack) == old(len(p.continueStack)) + 1
+  ensures [C08] old(p.loopLayer) > 0 && !p.codeOverflow ==> p.code[p.codeIndex-1].T == typeJmp && p.codeIndex == old(p.codeIndex) + specMax0(old(p.blockDepth)-old(p.loopInfo[len(p.loopInfo)-1].blockDepth)) + specMax0(old(p.fstrDepth)-old(p.loopInfo[len(p.loopInfo)-1].fstrDepth)) + 1
+  ensures [C08] p.blockDepth == old(p.blockDepth) && p.fstrDepth == old(p.fstrDepth)
+
+// nested code buffers (function bodies, computed values): a fresh buffer outside every loop and block; the enclosing
+// buffer's position and nesting come back unchanged, and the instruction-overflow flag is never touched (C07, C08).
+func (*ParserData).CodePush
+  props C07 C08 C01
+  requires p != nil
+  ensures [C08] len(p.codeStack) == old(len(p.codeStack)) + 1 && p.codeIndex == 0 && len(p.code) == 256 && p.loopLayer == 0 && p.blockDepth == 0 && p.fstrDepth == 0
+  ensures [C08] p.codeStack[len(p.codeStack)-1].index == old(p.codeIndex) && p.codeStack[len(p.codeStack)-1].loopLayer == old(p.loopLayer) && p.codeStack[len(p.codeStack)-1].blockDepth == old(p.blockDepth) && p.codeStack[len(p.codeStack)-1].fstrDepth == old(p.fstrDepth) && p.codeStack[len(p.codeStack)-1].textPos == textPos
+  ensures [C07] p.codeOverflow == old(p.codeOverflow)
+
+func (*ParserData).CodePop
+  props C07 C08 C01
+  requires p != nil && len(p.codeStack) >= 1
+  ensures [C08] len(p.codeStack) == old(len(p.codeStack)) - 1 && result1 == old(p.codeIndex) && result2 == old(p.codeStack[len(p.codeStack)-1].textPos)
+  ensures [C08] p.codeIndex == old(p.codeStack[len(p.codeStack)-1].index) && p.loopLayer == old(p.codeStack[len(p.codeStack)-1].loopLayer) && p.blockDepth == old(p.codeStack[len(p.codeStack)-1].blockDepth) && p.fstrDepth == old(p.codeStack[len(p.codeStack)-1].fstrDepth)
+  ensures [C07] p.codeOverflow == old(p.codeOverflow)
 
 func (*ParserData).OffsetPush
   props C02 C08
